@@ -495,6 +495,8 @@ Definition wsched_of (l : list Z) : list wev :=
 Record client_case := {
   cc_sock : N;
   cc_dir : bytes;
+  cc_where : bytes;                (* directory that holds this client's data when the case is over
+                                      (cc_dir, or cc_dir.old when a later client re-used the name) *)
   cc_body : list msg;              (* messages after MDir, before MEnd *)
   cc_wsched : list Z;              (* short-write schedule given to the interposed write/writev *)
   cc_rsched : list nat;            (* chunk sizes given to the interposed read of the server *)
@@ -522,7 +524,7 @@ Fixpoint serve_seq (cs : list client_case) (s : server) : option server :=
 Definition agree_recv (cs : list client_case) : bool :=
   match serve_seq cs {| clients := []; fs := fs_empty |} with
   | None => false
-  | Some s => forallb (fun c => odir_eqb (fs s (cc_dir c)) (cc_recv c)) cs
+  | Some s => forallb (fun c => odir_eqb (fs s (cc_where c)) (cc_recv c)) cs
   end.
 (* model of the local recorder == local directory of the implementation *)
 Definition agree_local (c : client_case) : bool := dir_eqb (local_dir (cc_body c)) (cc_local c).
@@ -531,6 +533,29 @@ Definition agrees (cs : list client_case) : bool :=
 (* PROPERTY on implementation outputs only *)
 Definition ok_case (cs : list client_case) : bool :=
   forallb (fun c => same_dir_opt (cc_local c) (cc_recv c)) cs.
+
+(* one socket served until SEND_END, death, or end of stream (then read() = 0: death) *)
+Fixpoint serve_stream (fuel : nat) (k : N) (t : transport) (s : server) : option server :=
+  match fuel with
+  | O => None
+  | S f =>
+      match handle_client_sock t with
+      | Died => None
+      | Handled a t' =>
+          match apply k a s with
+          | None => None
+          | Some s' => match a with AEnd => Some s' | _ => serve_stream f k t' s' end
+          end
+      end
+  end.
+(* arbitrary (possibly malformed) byte stream of one client: does the server die, and what is in
+   directory [d] afterwards?  compared with the implementation's (died, directory) *)
+Definition agree_raw (c : bytes * list nat * bytes * (bool * option dirent)) : bool :=
+  let '(wire, rsched, d, (died, got)) := c in
+  match serve_stream (S (length wire)) 1 (segment rsched wire) {| clients := []; fs := fs_empty |} with
+  | None => died
+  | Some s => negb died && odir_eqb (fs s d) got
+  end.
 
 Fixpoint bad_indices {A} (f : A -> bool) (l : list A) (i : nat) : list nat :=
   match l with
